@@ -1245,6 +1245,31 @@ def call_history_task(lin_ok):
                     out['viols'].append(({'clause': 'call-history', 'fn': 'bilform_matrix'},
                                          'bilform_matrix(use_mp=True, cpu={}) after the in-place list mutation {!r} on the same operator and list objects: {}'.format(cpu, op, bad),
                                          {'kind': 'call-history', 'fn': 'bilform_matrix'}))
+        # the same history on the SERIAL loop (N*M >= 100, use_mp=False): assemblies of one shape on one operator, the lists
+        # mutated in place between them (causal and acausal positions change places), then a larger and again the first shape
+        SLs = SingleLayerOperator(m)
+        T = list(els[:10])
+        S = list(els[6:16])
+        for op in ops + ['grow', 'shrink', 'reverse']:
+            if op == 'grow':
+                T, S = list(els[:12]), list(els[4:16])
+            elif op == 'shrink':
+                T, S = list(els[:10]), list(els[6:16])
+            else:
+                mutate(S, op, els)
+                if op in ('rotate', 'swap-ends', 'reverse'):
+                    mutate(T, op, els)
+            out['n'] += 1
+            try:
+                A = SLs.bilform_matrix(T, S)
+                want = np.array([[ref.bilform(tr, te) for tr in S] for te in T], dtype=float)
+                bad = None if (A.shape == want.shape and np.array_equal(A, want)) else 'matrix differs from the entry-wise single evaluations of the current lists'
+            except Exception as ex:  # noqa
+                bad = 'raised {!r}'.format(ex)
+            if bad and len(out['viols']) < 8:
+                out['viols'].append(({'clause': 'call-history', 'fn': 'bilform_matrix', 'path': 'serial'},
+                                     'bilform_matrix (serial loop) after the history step {!r} on the same operator: {}'.format(op, bad),
+                                     {'kind': 'call-history', 'fn': 'bilform_matrix'}))
     return out
 
 
